@@ -597,6 +597,15 @@ def gen_trace(rng, check, population, tier='quick'):
         for _ in range(nthreads):
             conns.append(gen_conn(r, g, 'frag' if check != 'C09'
                                   else r.choice(['frag', 'corrupt']), cfg))
+        mirror = r.random() < 0.4
+        if mirror:
+            # all connections carry the same frames: identical calls meet
+            # in the same first-time code paths at the same time
+            for c_ in conns[1:]:
+                c_['frames'] = list(conns[0]['frames'])
+                c_['faults'] = [dict(f_) for f_ in conns[0]['faults']]
+                c_['cuts'] = [list(x) for x in conns[0]['cuts']]
+                c_['closes'] = []
         est = sum(len(c['frames']) for c in conns) * 400
         sched_list, policy = gen_b.gen_schedule(r, nthreads, est)
         tr = {'world': 'A', 'check': check, 'population': population,
@@ -604,7 +613,7 @@ def gen_trace(rng, check, population, tier='quick'):
               'policy': policy,
               'exit_picks': [r.randrange(8) for _ in range(4)],
               'first': r.randrange(nthreads)}
-        if r.random() < 0.6:
+        if mirror or r.random() < 0.6:
             tr['novel'] = {'every': r.choice([1, 1, 2, 3, 5]),
                            'picks': [r.randrange(8) for _ in range(6)]}
         return tr
